@@ -109,16 +109,25 @@ Definition fi_func_obj (o : fit_obj) : fn_obj :=
   {| fo_f := fi_mc o; fo_spec := true; fo_range := fi_range o;
      fo_xname := []; fo_yname := []; fo_xunit := []; fo_yunit := []; fo_label := fi_label o |}.
 
-(** HistogramOnPlot *)
-Inductive bins := BInt (k : nat) | BSeq (edges : list Q).
-Record hist_kw := mk_hist_kw { kw_bins : option bins; kw_range : option range; kw_label : option text }.
+(** HistogramOnPlot.  Keywords that reach numpy.histogram (NP_HIST_VALID_KWARGS): bins, range, density,
+    weights; keywords that reach ax.hist (HIST_VALID_KWARGS): those and cumulative (the purely
+    cosmetic ones -- histtype, align, rwidth, bottom, log, orientation -- are not modelled).
+    bins: an integer, an ascending sequence of edges (any widths), or a string rule ("auto",
+    "sturges", ...) -- for a rule the edges numpy's estimator chose are an ORACLE input. *)
+Inductive bins := BInt (k : nat) | BSeq (edges : list Q) | BRule (edges : list Q).
+Record hist_kw := mk_hist_kw {
+  kw_bins : option bins; kw_range : option range; kw_label : option text;
+  kw_density : bool; kw_weights : option (list Q); kw_cumulative : bool }.
 Record hist_obj := mk_hist_obj { hi_samples : list Q; hi_kw : hist_kw }.
 
 (** {k: v for k, v in kwargs.items() if k in VALID} *)
 Definition restrict (valid : list string) (k : hist_kw) : hist_kw :=
   {| kw_bins := if kw_in "bins" valid then kw_bins k else None;
      kw_range := if kw_in "range" valid then kw_range k else None;
-     kw_label := if kw_in "label" valid then kw_label k else None |}.
+     kw_label := if kw_in "label" valid then kw_label k else None;
+     kw_density := if kw_in "density" valid then kw_density k else false;
+     kw_weights := if kw_in "weights" valid then kw_weights k else None;
+     kw_cumulative := if kw_in "cumulative" valid then kw_cumulative k else false |}.
 
 (** numpy.histogram, bin edges: a sequence is taken as it is; an integer k gives k equal-width
     bins over the given range, or over (min, max) of the samples; a range of zero width is
@@ -126,6 +135,7 @@ Definition restrict (valid : list string) (k : hist_kw) : hist_kw :=
 Definition hist_edges (samples : list Q) (kw : hist_kw) : option (list Q) :=
   match kw_bins kw with
   | Some (BSeq e) => Some e
+  | Some (BRule e) => Some e
   | b =>
       let k := match b with Some (BInt k) => k | _ => 10%nat end in
       match (match kw_range kw with Some r => Some r | None => span samples end) with
@@ -136,9 +146,11 @@ Definition hist_edges (samples : list Q) (kw : hist_kw) : option (list Q) :=
       end
   end.
 
-(** counts: bin i is [e_i, e_i+1), the last bin is closed *)
+(** bin i is [e_i, e_i+1), the last bin is closed *)
 Definition half_open (a b s : Q) : bool := Qle_bool a s && Qltb s b.
 Definition closed (a b s : Q) : bool := Qle_bool a s && Qle_bool s b.
+
+(** plain counts (what the bin contents are when no weights are given, see Proofs) *)
 Fixpoint hist_counts_from (samples : list Q) (e0 : Q) (rest : list Q) {struct rest} : list nat :=
   match rest with
   | [] => []
@@ -151,16 +163,46 @@ Fixpoint hist_counts_from (samples : list Q) (e0 : Q) (rest : list Q) {struct re
 Definition hist_counts (samples edges : list Q) : list nat :=
   match edges with [] => [] | e0 :: rest => hist_counts_from samples e0 rest end.
 
-(** numpy.histogram(samples, **kw) = (counts, edges) *)
-Definition np_histogram (samples : list Q) (kw : hist_kw) : option (list nat * list Q) :=
+(** bin contents in general: the sum of the weights of the samples in the bin (weight 1 each
+    when no weights are given) *)
+Definition weighted (samples : list Q) (kw : hist_kw) : list (Q * Q) :=
+  combine samples (match kw_weights kw with Some w => w | None => repeat 1 (List.length samples) end).
+Definition bin_sum (p : Q -> bool) (ws : list (Q * Q)) : Q :=
+  fold_right (fun sw acc => if p (fst sw) then snd sw + acc else acc) 0 ws.
+Fixpoint hist_sums_from (ws : list (Q * Q)) (e0 : Q) (rest : list Q) {struct rest} : list Q :=
+  match rest with
+  | [] => []
+  | e1 :: rest' =>
+      match rest' with
+      | [] => [bin_sum (closed e0 e1) ws]
+      | _ :: _ => bin_sum (half_open e0 e1) ws :: hist_sums_from ws e1 rest'
+      end
+  end.
+Definition hist_sums (ws : list (Q * Q)) (edges : list Q) : list Q :=
+  match edges with [] => [] | e0 :: rest => hist_sums_from ws e0 rest end.
+
+Fixpoint widths (edges : list Q) : list Q :=
+  match edges with
+  | e0 :: ((e1 :: _) as rest) => (e1 - e0) :: widths rest
+  | _ => []
+  end.
+Definition qsum (l : list Q) : Q := fold_right Qplus 0 l.
+(** density=True:  n / diff(edges) / n.sum() *)
+Definition densities (raw edges : list Q) : list Q :=
+  map2 (fun r w => r / w / qsum raw) raw (widths edges).
+
+(** numpy.histogram(samples, **kw) = (bin contents or densities, edges) *)
+Definition np_histogram (samples : list Q) (kw : hist_kw) : option (list Q * list Q) :=
   match hist_edges samples kw with
-  | Some e => Some (hist_counts samples e, e)
+  | Some e =>
+      let raw := hist_sums (weighted samples kw) e in
+      Some (if kw_density kw then densities raw e else raw, e)
   | None => None
   end.
 
 (** what Plot.hist returns to the caller: HistogramOnPlot.__init__ calls numpy.histogram with
     the keywords in NP_HIST_VALID_KWARGS *)
-Definition hist_returned (h : hist_obj) : option (list nat * list Q) :=
+Definition hist_returned (h : hist_obj) : option (list Q * list Q) :=
   np_histogram (hi_samples h) (restrict NP_HIST_VALID_KWARGS (hi_kw h)).
 (** HistogramOnPlot._xrange = (bin_edges[0], bin_edges[-1]) *)
 Definition hi_xrange (h : hist_obj) : option range :=
@@ -168,16 +210,28 @@ Definition hi_xrange (h : hist_obj) : option range :=
   | Some (_, e0 :: rest) => Some (e0, last rest e0)
   | _ => None
   end.
-(** what HistogramOnPlot.show draws: ax.hist(samples, **kwargs in HIST_VALID_KWARGS), which
-    bins with numpy.histogram and draws one bar (left edge, width, height) per bin *)
-Fixpoint bars_of (edges : list Q) (counts : list nat) : list (Q * Q * Q) :=
-  match edges, counts with
-  | e0 :: ((e1 :: _) as rest), c :: cs => (e0, e1 - e0, Qn c) :: bars_of rest cs
+
+(** running sums *)
+Fixpoint cumsum_from (acc : Q) (l : list Q) : list Q :=
+  match l with [] => [] | x :: r => (acc + x) :: cumsum_from (acc + x) r end.
+(** matplotlib's Axes.hist on top of numpy.histogram: cumulative=True shows running sums of the
+    bin contents -- of density * width when density=True *)
+Definition mpl_heights (kw : hist_kw) (n edges : list Q) : list Q :=
+  if kw_cumulative kw
+  then cumsum_from 0 (if kw_density kw then map2 Qmult n (widths edges) else n)
+  else n.
+(** one bar (left edge, width, height) per bin *)
+Fixpoint bars_of (edges : list Q) (heights : list Q) : list (Q * Q * Q) :=
+  match edges, heights with
+  | e0 :: ((e1 :: _) as rest), c :: cs => (e0, e1 - e0, c) :: bars_of rest cs
   | _, _ => []
   end.
+(** what HistogramOnPlot.show draws: ax.hist(samples, **kwargs in HIST_VALID_KWARGS), which
+    bins the samples with numpy.histogram *)
 Definition hist_bars (h : hist_obj) : option (list (Q * Q * Q)) :=
-  match np_histogram (hi_samples h) (restrict HIST_VALID_KWARGS (hi_kw h)) with
-  | Some (c, e) => Some (bars_of e c)
+  let kw := restrict HIST_VALID_KWARGS (hi_kw h) in
+  match np_histogram (hi_samples h) kw with
+  | Some (n, e) => Some (bars_of e (mpl_heights kw n e))
   | None => None
   end.
 
